@@ -6,7 +6,7 @@ TRUSTED = ["python ast (stdlib)", "RxPY: Subject delivers synchronously in subsc
 
 
 def rules_for(prop):
-    from .rules import mx, st, grp, lv, scan, er, ms, tm, seq, pr, ag, io
+    from .rules import mx, st, grp, lv, scan, er, ms, tm, seq, pr, ag, io, cont
     from functools import partial as P
 
     def named(f, **kw):
@@ -36,6 +36,9 @@ def rules_for(prop):
         "C15": [io.rule_framing],
         "C16": [io.rule_compression],
         "C17": [io.rule_codec],
+        "C18": [cont.rule_csv_tables, cont.rule_dp7],
+        "C19": [cont.rule_ag7],
+        "C20": [cont.rule_pu2, seq.rule_dp6],
         "C06": [named(grp.rule_eq1, files=("rxsci/data/split.py",), min_instances=7), named(grp.rule_fw1, heads=("split",)), grp.rule_dp4,
                 named(lv.rule_lv, only=("split_mux._split.on_subscribe",))],
         "C07": [grp.rule_time_split, named(grp.rule_fw1, heads=("time_split",)),
@@ -45,17 +48,106 @@ def rules_for(prop):
 
 
 LEVEL = {}
+
+_COMMON = ("Every control path of the anchored handlers is enumerated per event kind and configuration valuation (stdlib ast, "
+           "copy-propagated value terms, no execution, no solver); each rule evaluates its obligations on those paths and reports the "
+           "construct (file:line, handler, kind, configuration, abstract trace) that fails. ")
+
 EXPLANATION = {
-    "C03": "Per-operator protocol preservation: for each of the 32 MuxObservable construction sites every control path of every "
-           "handler is enumerated per event kind and configuration; the emitted events are classified (kind, key class) and "
-           "checked against the lifecycle obligations MX-1..MX-8, the grouping typestate LV and the constructor frame WC-2.",
+    "C01": _COMMON + "Decided clauses: AG-1 every operator documented as dual-mode has a mux arm or is composed only of dual-mode rxsci "
+           "operators (RxPY operators only in plain arms); AG-2 both arms of each of the 13 dispatch sites receive the same user parameters; "
+           "AG-3 the operators implemented twice in the repo (scan, flat_map, assert_1, tee_map join) have equal per-item / completion "
+           "skeletons; AG-3b unset markers of siblings. Not decided: that a *_mux body equals the RxPY operator of the plain arm.",
+    "C02": _COMMON + "Decided clauses: ST-1 mux handlers write no closure data outside the Probe branch; ST-2 every state id is add_key'd "
+           "on every creation path; ST-3 indices used during a lifetime are included in those initialised at creation (affine index sets "
+           "key[0], key[0]*D+[0,D)); ST-4 no use after del_key; ST-5 tee_map join table reset covers the slots written; ST-6 injective child "
+           "indices; WC-1 frame condition on the store. Not decided: values; user closures.",
+    "C03": _COMMON + "Per-operator protocol preservation for the 32 MuxObservable construction sites: MX-1..4 per-kind lifecycle "
+           "obligations, LV typestate of child keys in the five grouping heads (ghost state P = liveness downstream, S = liveness recorded in "
+           "the store, invariant S = P while the parent is live), MX-5 sandwich and demux, MX-6 root, MX-7 tee_map de-duplication, MX-8 "
+           "terminals add no events, WC-2 constructor frame. The induction over composition is stated in DESIGN.md, not mechanised.",
+    "C04": _COMMON + "Decided clauses: EQ-1 no identity comparison on user values in group_by / MemoryStore; FW-1 every item is forwarded "
+           "unchanged to exactly the child whose index is the map entry of key_mapper(item); FL-1 open groups are flushed by iterating the "
+           "parent's dict itself (insertion order); LV for group_by. Not decided: hash/eq consistency of user keys.",
+    "C05": _COMMON + "Decided clauses: DP-1 counter incremented exactly once per item and reset with the parent; DP-2 a window opens iff "
+           "counter % stride == 0 in slot (counter // stride) % density storing the counter, and closes iff counter - start + 1 == window "
+           "(tests compared in linear normal form); DP-3 flush order depends on the ring phase; ST-2/3/4/6 on the slot ring; LV. Not "
+           "decided: that density = ceil(window/stride) slots suffice (explicit assumption), exact window contents.",
+    "C06": _COMMON + "Decided clauses: EQ-1 in split.py; FW-1; DP-4 the boundary test is ==/!= between predicate(item) and the stored "
+           "predicate, after every item the stored predicate is that of the item, and child events are Create,Next / Completed,Create,Next / "
+           "Next; LV (first segment opened by the first item, last one closed at parent completion iff open).",
+    "C07": _COMMON + "Decided clauses: CMP-1 each timeout test normalises to new - reference - timeout >= 0 with the active reference the "
+           "stored window start and the inactive one the stored last timestamp; DP-5 bookkeeping of both timestamps; ORD-1 event order per "
+           "include_closing_item and closing_mapper consulted only when not expired; FW-1; LV. Not decided: arithmetic on timestamps.",
+    "C08": _COMMON + "Decided clauses: TM-1 connect() after all len(sources) branches are subscribed; TM-2/3 one published connectable "
+           "shared by all branches; TM-4 join skeleton per mode over the key's slice of n slots; ST-5 join table reset; MX-7 lifecycle "
+           "de-duplication; AG-3 mux and plain joins agree. Not decided: behaviour of the branches themselves.",
+    "C09": _COMMON + "Decided clauses: SD-1 the seed reaches accumulator/terminator/state/output only through seed() or deepcopy(seed) "
+           "(13 scan call sites classified); SC-1 fold skeleton per (reduce, terminator); AG-3 scan_mux = scan_obs skeletons; PU-1 "
+           "accumulators do not mutate items or free state and mappers downstream of a scan do not mutate the live accumulator.",
+    "C10": _COMMON + "Decided clauses: FW-2 per-path emission multiplicity and bookkeeping of first, take (countdown > 0, minus exactly 1), "
+           "last, pad_start/pad_end, start_with, lag(1)/lag(n), distinct; DP-6 batch flag is len(batch) == batch_size on every path and the "
+           "terminator's flag depends on the pending batch; DP-8 seed slots compared by value are private markers; EQ-1. Not decided: sort.",
+    "C11": _COMMON + "Decided clauses: PR-1 no scheduler/timer/thread call outside the three sources and every emission is made inside a "
+           "handler; PR-2 the set of completion-time emitters is exactly scan(reduce/terminator), last, pad_end (plus named plain codecs); "
+           "PR-3 windows/segments are completed while their closing item is handled; DP-6; ST-1 (no buffering of items in closures).",
+    "C12": "Only the clause 'streaming value after the last item equals the reduce value / each emitted value reflects the items so far' "
+           "is decided: AG-4 every math aggregate forwards reduce unchanged to a single scan (one code path) and PU-1 its post-processing "
+           "mappers and accumulators are pure. Accuracy, conditioning and n-1 vs n are not decidable statically and are not claimed.",
+    "C13": _COMMON + "Decided clauses: ER-1 every user call of map/filter/scan is inside a try catching Exception whose handler emits exactly "
+           "one OnErrorMux(key, exception, store) and no state was written before the raise; ER-2 ignore / error.map / router behaviour "
+           "per kind incl. dead-letter completion order; ER-3 both demultiplexers turn a mux error into on_error; WC-2.",
+    "C14": _COMMON + "Induction over operation sequences: every MemoryStore method preserves the representation invariant and the frame: "
+           "MS-1 lock-step growth up to key[0]; MS-2 writes only at key[0]; MS-3 marker table; MS-4 allocator freshness; MS-5 typecode table; "
+           "MS-6 the 18 forwarders of StoreManager/Store pass the same arguments in order. Not decided: value read-back beyond typecodes.",
+    "C15": _COMMON + "Decided clauses (narrow): same delimiter written and split; carry-over prepended and re-assigned on every path; "
+           "remainder flushed at completion iff non-empty; length-prefix defaults agree and reach to_bytes/from_bytes; CMP-2 both "
+           "availability comparisons are inclusive in linear normal form; carry-over = unconsumed bytes. Not decided: all chunkings.",
+    "C16": _COMMON + "Decided clauses: OB-1 every chunk goes through the one codec object and its output is emitted; OB-2 flush output "
+           "before on_completed; OB-3 completion without eof ends in on_error only, one terminal per path; AG-5 gzip wbits equal (31); AG-6 "
+           "z and zstd skeletons equal. zlib/zstandard streaming semantics are trusted.",
+    "C17": _COMMON + "Decided clauses: one incremental codec per subscription built from the encoding parameter; every item goes through "
+           "it; final=True flush emitted before completion; defaults incremental=True; json.py does not override them.",
+    "C18": _COMMON + "Decided clauses (narrow): the unescape pairs of parse_line are the inverses of dump's escape pairs; defaults of "
+           "separator/escapechar agree and reach join/split; type table (None <-> '', bool <-> 'True'); DP-7 the float parser is not a "
+           "separable sum f(int part) + g(fraction part). Not decided: fields ending with the escape character (known to fail at run time).",
+    "C19": _COMMON + "Decided clause: AG-7 for each compression setting the stage list of load_from_file(lines=True) is the reversed "
+           "stage list of dump_to_file through the inverse table; compression tables, modes, encoding and newline defaults agree.",
+    "C20": _COMMON + "Decided clauses: PU-2 the record builder carries no mutable free state into its result; stage order batch -> "
+           "to_record -> writer with batch_size forwarded; writer closed before completion; loader emits every row of every batch before "
+           "on_completed; DP-6 (batch). pyarrow is trusted.",
 }
 
 DEFAULT_LEVEL_TEXT = ("Static analysis: the named structural clauses (necessary conditions of the property) are decided on every "
                       "control path of the anchored functions, for every event kind and configuration; the behaviour as a whole is not.")
 DEFAULT_LEVEL_NOTE = ("Trusted: python ast; RxPY delivery semantics; the idiom tables of the checker. The induction over operator "
                       "composition (each operator preserves the invariant) is stated in DESIGN.md, not mechanised.")
-LEVEL_TEXT = {}
+LEVEL_TEXT = {k: ("All-paths static analysis of the clauses listed in DESIGN.md section 3 for %s: each obligation is discharged on every "
+                  "path / kind / configuration or reported with the failing construct; this decides those clauses for every input, schedule "
+                  "and history at once, which tests cannot, but not the behaviour beyond them." % k) for k in EXPLANATION}
+LEVEL_TEXT["C12"] = ("Narrow: only 'one fold shared by streaming and reduce' and purity of the callbacks are decided; numerical accuracy is "
+                     "out of reach of static analysis and not claimed.")
 LEVEL_NOTE = {}
-TECHNIQUE = {}
+TECHNIQUE = {
+    "C01": "static analysis: dual-dispatch closure over the call graph, arm-argument agreement, sibling path-summary comparison",
+    "C02": "static analysis: effect analysis of handlers, must-pass-through add_key, affine index-set inclusion",
+    "C03": "static analysis: per-kind path enumeration with event classification; typestate with ghost liveness for grouping heads",
+    "C04": "static analysis: identity-comparison lint over resolved names, exactly-once forwarding on all paths, typestate",
+    "C05": "static analysis: linear normal forms of the window tests, def-use of the counter, index-set rules, typestate",
+    "C06": "static analysis: identity-comparison lint, path summaries of split, typestate",
+    "C07": "static analysis: normal form of the expiry comparisons after inlining, store bookkeeping and event order per path",
+    "C08": "static analysis: ordering of subscribe/connect effects, join skeleton over index sets, sibling comparison",
+    "C09": "static analysis: taint of the seed parameter, fold skeleton per configuration, callback effect classification",
+    "C10": "static analysis: per-path emission/bookkeeping summaries, dependence of batch flags, partial evaluation on the seed literal",
+    "C11": "static analysis: who-may-call rule for schedulers, closed set of completion-time emitters, close-on-item rule",
+    "C12": "static analysis: single-code-path and purity checks only (accuracy not applicable to this technique)",
+    "C13": "static analysis: exceptional-edge path enumeration (must-catch, one error event, no write before raise), handler tables",
+    "C14": "static analysis: per-method representation-invariant obligations on all paths, forwarder agreement",
+    "C15": "static analysis: writer/reader agreement, inclusive-comparison normal forms, carry-over def-use",
+    "C16": "static analysis: must-pass-through codec and flush-before-terminal rules, sibling agreement, constant folding of wbits",
+    "C17": "static analysis: per-configuration path rules for incremental codecs, default agreement",
+    "C18": "static analysis: escape-table inversion, default agreement, separable-sum dependence rule for the decimal parser",
+    "C19": "static analysis: pipeline stage extraction and inverse-table symmetry",
+    "C20": "static analysis: callback effect classification (free state into result), stage order, loop/terminal order",
+}
 NOT_APPLICABLE = {}
